@@ -50,6 +50,10 @@ func situations() []situation {
 		{"syntax-error-main", "sub vcl_recv {\n  set req.http.A = ;\n}\n", nil},
 		{"syntax-error-include", "include \"mod\";\n" + okSub, map[string]string{"mod.vcl": "sub broken {\n  set req.http.A = ;\n}\n"}},
 		{"syntax-error-include-in-sub", "sub vcl_recv {\n  #FASTLY recv\n  include \"mod\";\n}\n", map[string]string{"mod.vcl": "set req.http.A = ;\n"}},
+		{"syntax-error-include-then-good-include", "include \"mod\";\ninclude \"good\";\n" + okSub, map[string]string{"mod.vcl": "sub broken {\n  set req.http.A = ;\n}\n", "good.vcl": "sub from_good {\n  set req.http.G = \"g\";\n}\n"}},
+		{"good-include-then-syntax-error-include", "include \"good\";\ninclude \"mod\";\n" + okSub, map[string]string{"mod.vcl": "sub broken {\n  set req.http.A = ;\n}\n", "good.vcl": "sub from_good {\n  set req.http.G = \"g\";\n}\n"}},
+		{"syntax-error-in-nested-include-then-good", "include \"outer\";\n" + okSub, map[string]string{"outer.vcl": "include \"mod\";\ninclude \"good\";\n", "mod.vcl": "sub broken {\n  set req.http.A = ;\n}\n", "good.vcl": "sub from_good {\n  set req.http.G = \"g\";\n}\n"}},
+		{"error-in-first-of-two-includes", "include \"mod\";\ninclude \"good\";\n" + okSub, map[string]string{"mod.vcl": "sub from_mod {\n  set req.http.A = std.itoa(\"x\");\n}\n", "good.vcl": "sub from_good {\n  set req.http.G = \"g\";\n}\n"}},
 		{"missing-include", "include \"nosuch\";\n" + okSub, nil},
 		{"error-in-include", "include \"mod\";\n" + okSub, map[string]string{"mod.vcl": "sub from_mod {\n  set req.http.A = std.itoa(\"x\");\n}\n"}},
 		{"warning-in-include", "include \"mod\";\n" + okSub, map[string]string{"mod.vcl": "sub from_mod {\n  set req.http.A = \"a\";\n}\n"}},
@@ -130,7 +134,35 @@ func reference(c Case) verdict {
 	if _, err := parser.New(lexer.NewFromString(c.Main)).ParseVCLOrSnippet(); err != nil {
 		return verdict{exit: 1}
 	}
-	r := lintx.Lint(c.Main, refModules(c.Modules))
+	// independent of the linter's own include resolution: every module reachable through include statements
+	// (found textually, followed transitively) is parsed directly; one that does not parse is a failure
+	mods := refModules(c.Modules)
+	seen := map[string]bool{}
+	var visit func(src string) bool
+	visit = func(src string) bool {
+		for _, m := range includeRe.FindAllStringSubmatch(src, -1) {
+			name := m[1]
+			if seen[name] {
+				continue
+			}
+			seen[name] = true
+			body, ok := mods[name]
+			if !ok {
+				continue // a missing module is the linter's business below
+			}
+			if _, err := parser.New(lexer.NewFromString(body)).ParseVCLOrSnippet(); err != nil {
+				return false
+			}
+			if !visit(body) {
+				return false
+			}
+		}
+		return true
+	}
+	if !visit(c.Main) {
+		return verdict{exit: 1}
+	}
+	r := lintx.Lint(c.Main, mods)
 	if r.Fatal != "" || r.ParseErr != nil {
 		return verdict{exit: 1}
 	}
@@ -154,6 +186,8 @@ func reference(c Case) verdict {
 	}
 	return v
 }
+
+var includeRe = regexp.MustCompile(`include\s+"([^"]+)"`)
 
 var summaryRe = regexp.MustCompile(`(\d+) errors, \D*(\d+) warnings, \D*(\d+) recommendations`)
 
@@ -288,7 +322,7 @@ func init() {
 	engine.Register(engine.Spec[Case]{
 		ID:    "C04",
 		Level: "exploration",
-		Rule: "22 program situations (clean; INFO / WARNING / ERROR only and combined; ERROR silenced by each ignore form; syntax error in main, in an included module at root and statement level; missing include; include cycle; error / warning inside an included module; statement-only snippets with and without @scope, with a lint error, with a syntax error; empty file) x .falco.yml rule overrides (none; every rule that fires x {ERROR, WARNING, INFO, IGNORE} in both letter cases; all pairs of levels for two fired rules; an unrelated rule), each run through the real `falco lint` binary in a private directory under all 6 combinations {plain, -json} x {default, -v, -vv}; oracles: (a) exit status and counts equal the verdict computed through the library (parser + linter + override map), (b) exit status and counts identical across the 6 combinations, (c) the -json document agrees with the summary line. non-trivial = every cell; distinct = distinct (program, overrides)",
+		Rule: "26 program situations (clean; INFO / WARNING / ERROR only and combined; ERROR silenced by each ignore form; syntax error in main, in an included module at root and statement level, in an included module followed / preceded by a module that parses, in a nested include; missing include; include cycle; error / warning inside an included module; statement-only snippets with and without @scope, with a lint error, with a syntax error; empty file) x .falco.yml rule overrides (none; every rule that fires x {ERROR, WARNING, INFO, IGNORE} in both letter cases; all pairs of levels for two fired rules; an unrelated rule), each run through the real `falco lint` binary in a private directory under all 6 combinations {plain, -json} x {default, -v, -vv}; oracles: (a) exit status and counts equal the verdict computed through the library (parser + linter + override map), (b) exit status and counts identical across the 6 combinations, (c) the -json document agrees with the summary line. non-trivial = every cell; distinct = distinct (program, overrides)",
 		Gen:  gen04,
 		Key: func(c Case) string {
 			ks := make([]string, 0, len(c.Overrides))
